@@ -178,3 +178,25 @@ def c11_stale_known(failure, max_adds=3):
         with open(path, encoding='utf-8') as f:
             _C11_STALE = set(line.strip() for line in f if line.strip())
     return json.dumps({'type': norm['type'], 'ops': ops}, sort_keys=True) in _C11_STALE
+
+
+_C12_REJ = None
+
+
+def c12_rejection_known(failure, max_held=3):
+    """KF-M-compatible-child-rejected: with at most max_held children held, only the exactly enumerated
+    (type, held children in acceptance order, refused child) triples of kf/C12-compatible-child-rejected.jsonl are the
+    known finding; with more children held every such refusal on these types is"""
+    global _C12_REJ
+    norm = failure.get('norm')
+    if not norm:
+        return True
+    if len(norm['held']) > max_held:
+        return True
+    if _C12_REJ is None:
+        import os
+        path = os.path.join(os.path.dirname(os.path.dirname(os.path.abspath(__file__))), 'kf',
+                            'C12-compatible-child-rejected.jsonl')
+        with open(path, encoding='utf-8') as f:
+            _C12_REJ = set(line.strip() for line in f if line.strip())
+    return json.dumps({'type': norm['type'], 'held': norm['held'], 'rejected': norm['rejected']}, sort_keys=True) in _C12_REJ
